@@ -242,11 +242,15 @@ def _diff_union_types(old: Schema, new: Schema) -> Iterator[SchemaChange]:
         old_type_names = set(t.name for t in old_union.types)
         new_type_names = set(t.name for t in new_union.types)
 
-        for t in old_type_names - new_type_names:
-            yield TypeRemovedFromUnion(t, old_union)
+        # In declaration order: iterating over a set of strings depends on
+        # the hash seed.
+        for old_member in old_union.types:
+            if old_member.name not in new_type_names:
+                yield TypeRemovedFromUnion(old_member.name, old_union)
 
-        for t in new_type_names - old_type_names:
-            yield TypeAddedToUnion(t, new_union)
+        for new_member in new_union.types:
+            if new_member.name not in old_type_names:
+                yield TypeAddedToUnion(new_member.name, new_union)
 
 
 def _diff_enum_types(old: Schema, new: Schema) -> Iterator[SchemaChange]:
@@ -287,11 +291,13 @@ def _diff_directives(old: Schema, new: Schema) -> Iterator[SchemaChange]:
             old_locs = set(old_directive.locations)
             new_locs = set(new_directive.locations)
 
-            for loc in old_locs - new_locs:
-                yield DirectiveLocationRemoved(old_directive, loc)
+            for loc in old_directive.locations:
+                if loc not in new_locs:
+                    yield DirectiveLocationRemoved(old_directive, loc)
 
-            for loc in new_locs - old_locs:
-                yield DirectiveLocationAdded(old_directive, loc)
+            for loc in new_directive.locations:
+                if loc not in old_locs:
+                    yield DirectiveLocationAdded(old_directive, loc)
 
             for d in _diff_directive_arguments(old_directive, new_directive):
                 yield d
